@@ -142,7 +142,9 @@ func c15SeamScenario(c *choice.Ctx, rep *report.R, depth int) {
 		}
 	case "tcp":
 		minCost, firstCost = costTCPQuery, costTCPConn+costTCPQuery
-		s := v.newTCPServer(0, 100*time.Second)
+		// (at most 2 queries in flight per connection: the queries here come one at a time, so the limit is never the reason for a
+		// refusal - unless refusals leak in-flight slots)
+		s := v.newTCPServer(2, 100*time.Second)
 		fl := newFakeListener()
 		s.l = fl
 		go s.run()
@@ -179,7 +181,7 @@ func c15SeamScenario(c *choice.Ctx, rep *report.R, depth int) {
 		}
 	case "gnet":
 		minCost, firstCost = costTCPConn, costTCPConn // the gnet listener only charges connections
-		s := v.newGnetServer(0, 100*time.Second)
+		s := v.newGnetServer(2, 100*time.Second)
 		send = func(who string, id uint16) string {
 			g := v.gnetClient(s, netip.AddrPortFrom(netip.MustParseAddr(clients[who]), 999), vLocalV4)
 			wait()
@@ -289,6 +291,28 @@ func c15SeamScenario(c *choice.Ctx, rep *report.R, depth int) {
 			}
 		}
 		usedSubnet[sn] = true
+	}
+	// recovery: whatever happened so far, after the client has been refused a few more times and has then stayed silent for burst
+	// seconds (its bucket is certainly full again) its next query is admitted - on the connection it has been using all along
+	if c.Choose(2, "recovery-history") == 1 && burst >= firstCost {
+		for i := 0; i < 12; i++ {
+			id++
+			if out := send("A", id); out != "refused" && out != "answer" && out != "closed" {
+				break
+			}
+		}
+		hsleep(time.Duration(burst+1) * time.Second)
+		wait()
+		id++
+		out := send("A", id)
+		trace = append(trace, "12xA,+"+fmt.Sprint(burst+1)+"s,A:"+out)
+		if out == "closed" { // the connection went away meanwhile: a new one (its cost is within the full bucket as well)
+			id++
+			out = send("A", id)
+		}
+		if out != "answer" {
+			fail("refused-within-budget", fmt.Sprintf("A was refused a number of times, then stayed silent for %d s (burst %d at 1/s: the bucket is full again), and its next query got %q", burst+1, burst, out))
+		}
 	}
 	v.Close()
 	for _, x := range own.Audit() {
